@@ -51,8 +51,10 @@ type Conn struct {
 	isPeerOrigin bool
 	infoHash     core.InfoHash
 	createdAt    time.Time
-	localPeerID  core.PeerID
-	bandwidth    *bandwidth.Limiter
+	// maxPieceLength bounds the payloads accepted from the remote peer.
+	maxPieceLength int64
+	localPeerID    core.PeerID
+	bandwidth      *bandwidth.Limiter
 
 	events Events
 
@@ -103,6 +105,7 @@ func newConn(
 		peerID:         remotePeerID,
 		isPeerOrigin:   isRemotePeerOrigin,
 		infoHash:       info.InfoHash(),
+		maxPieceLength: info.MaxPieceLength(),
 		createdAt:      clk.Now(),
 		localPeerID:    localPeerID,
 		bandwidth:      bandwidth,
@@ -220,7 +223,14 @@ func (c *Conn) readMessage() (*Message, error) {
 	var pr storage.PieceReader
 	if p2pMessage.Type == p2p.Message_PIECE_PAYLOAD {
 		// For payload messages, we must read the actual payload to the connection
-		// after reading the message.
+		// after reading the message. The header comes from the remote peer: it may
+		// lack its body, and its length decides how much is allocated and read next.
+		if p2pMessage.PiecePayload == nil {
+			return nil, errors.New("piece payload message has no body")
+		}
+		if l := int64(p2pMessage.PiecePayload.Length); l < 0 || l > c.maxPieceLength {
+			return nil, fmt.Errorf("invalid piece payload length %d: max piece length is %d", l, c.maxPieceLength)
+		}
 		payload, err := c.readPayload(p2pMessage.PiecePayload.Length)
 		if err != nil {
 			return nil, fmt.Errorf("read payload: %s", err)
